@@ -692,3 +692,21 @@ def run(node, stack=(), reach_cap=400, step_cap=20000):
     outs = r.ev(node, [(tuple(stack), {})])
     res = [canon_stack(s) for s, _ in outs]
     return res, r
+
+
+def compare(got, exp, run, text=""):
+    """'ok' | 'bad' | 'unjudged' for engine results GOT against model results EXP of Run RUN."""
+    if run.wild:
+        got, exp = [wild(x) for x in got], [wild(x) for x in exp]
+    if not run.taint:
+        return "ok" if got == exp else "bad"
+    if sorted(got) == sorted(exp):
+        return "ok"
+    # an order the documentation leaves open was produced; it may have flowed into
+    # positions (numbering follows the order) ...
+    if sorted(wild(x) for x in got) == sorted(wild(x) for x in exp):
+        return "ok"
+    # ... or into captured sequences, where the model cannot follow it
+    if "[" in text:
+        return "unjudged"
+    return "bad"
